@@ -50,12 +50,16 @@ func c11Check(r *ev.Run, distinct map[string]bool) func(run *streamRun, x *verif
 			bad("event:"+e.Kind, fmt.Sprintf("%s in %s: %s", e.Kind, e.Thread, clip(e.Detail)))
 			return
 		}
+		// threads parked at quiescence are only reported together with what went wrong (a producer that
+		// could not submit, a message that was never written): where a correct stream parks its idle
+		// goroutines is not the property's business
+		parked := ""
 		if st := stuckThreads(x); len(st) > 0 {
-			bad("stuck", fmt.Sprintf("at quiescence a thread is blocked outside its idle point: %v", st))
-			return
+			parked = fmt.Sprintf("; parked outside the known idle points: %v", st)
+			r.Add("executions_with_threads_parked_elsewhere", 1)
 		}
 		if run.prodDone != len(sc.Producers) {
-			bad("producer-blocked", fmt.Sprintf("only %d of %d producers could submit all their messages", run.prodDone, len(sc.Producers)))
+			bad("producer-blocked", fmt.Sprintf("only %d of %d producers could submit all their messages%s", run.prodDone, len(sc.Producers), parked))
 			return
 		}
 		var wire []byte
@@ -99,7 +103,7 @@ func c11Check(r *ev.Run, distinct map[string]bool) func(run *streamRun, x *verif
 		}
 		for pi := range sc.Producers {
 			if next[pi] != len(run.submitted[pi]) {
-				bad("lost", fmt.Sprintf("message %d of producer %d was never written", next[pi], pi))
+				bad("lost", fmt.Sprintf("message %d of producer %d was never written%s", next[pi], pi, parked))
 				return
 			}
 		}
@@ -141,6 +145,35 @@ func c11Scenarios(thorough bool) []streamScenario {
 			}
 		}
 	}
+	// the same object submitted again (a message built once and sent repeatedly), as the typed value
+	// and as a pre-encoded util.Buffer: one producer alone, and next to a second producer
+	for _, asBuf := range []bool{false, true} {
+		for _, a := range kinds {
+			for _, body := range [][]int{{a, a}, {a, (a + 1) % 3, a}, {a, a, a}} {
+				out = append(out, streamScenario{Producers: [][]int{body}, Reuse: true, AsBuffer: asBuf, FailAfter: -1, Bound: -1, ShutAt: -1})
+			}
+			out = append(out, streamScenario{Producers: [][]int{{a, a}, {(a + 1) % 3}}, Reuse: true, AsBuffer: asBuf, FailAfter: -1, Bound: -1, ShutAt: -1})
+			out = append(out, streamScenario{Producers: [][]int{{a}, {(a + 2) % 3, a}}, AsBuffer: asBuf, FailAfter: -1, Bound: -1, ShutAt: -1})
+		}
+	}
+	// a peer that reads slowly: the writer is held at every write while the producers keep submitting
+	// (40 and 2 x 24 small messages, one producer mixing sizes); default order of that policy plus
+	// every single departure from it
+	long := func(n int, kinds ...int) []int {
+		var b []int
+		for i := 0; i < n; i++ {
+			b = append(b, kinds[i%len(kinds)])
+		}
+		return b
+	}
+	out = append(out,
+		streamScenario{Producers: [][]int{long(40, 0)}, Policy: "slow-peer", Devs: true, FailAfter: -1, Bound: 1, ShutAt: -1},
+		streamScenario{Producers: [][]int{long(36, 0, 1, 0, 2)}, Policy: "slow-peer", Devs: true, FailAfter: -1, Bound: 1, ShutAt: -1},
+		streamScenario{Producers: [][]int{long(24, 0), long(24, 1)}, Policy: "slow-peer", Devs: true, FailAfter: -1, Bound: 0, ShutAt: -1})
+	if thorough {
+		out = append(out, streamScenario{Producers: [][]int{long(70, 0)}, Policy: "slow-peer", Devs: true, FailAfter: -1, Bound: 2, ShutAt: -1},
+			streamScenario{Producers: [][]int{long(24, 0), long(24, 1)}, Policy: "slow-peer", Devs: true, FailAfter: -1, Bound: 1, ShutAt: -1})
+	}
 	if thorough {
 		two := [][]int{{0, 1}, {1, 2}, {2, 0}, {1, 1}}
 		for i := range two {
@@ -178,6 +211,9 @@ func c11RunScenario(r *ev.Run, sc streamScenario, distinct map[string]bool) {
 		sc.Producers = [][]int{append(body, 0)}
 	}
 	e, _ := newStreamExplorer(sc, frames, out, c11Check(r, distinct), r.Deadline)
+	if sc.Bound >= 0 {
+		e.KeyFn = nil // state caching is only used without a bound
+	}
 	if (len(sc.OutSizes) > 0 || len(sc.OutKinds) > 0) && sc.Sched == nil {
 		e.KeyFn = nil
 		e.RunOne(nil)
@@ -315,11 +351,16 @@ func c11(r *ev.Run, replay string) {
 	r.Set("states", n)
 	r.Set("traces_validated_against_impl", r.Counter("schedules"))
 	r.Set("evaluations", r.Counter("schedules"))
-	lv := "1 producer x 12 bodies; 2 producers x all unordered pairs of the 12 bodies of 1..2 messages over {echo request, flow-mod, 1514-byte packet-out}; 3 producers x all multisets of single messages: all interleavings of producers, writer and the idle stream goroutines, state-cached, no preemption bound"
+	lv := "1 producer x 12 bodies; 2 producers x all unordered pairs of the 12 bodies of 1..2 messages over {echo request, flow-mod, 1514-byte packet-out}; 3 producers x all multisets of single messages; the same object (typed value or pre-encoded util.Buffer) submitted two and three times, alone and next to a second producer: all interleavings of producers, writer and the idle stream goroutines, state-cached, no preemption bound"
 	if r.Thorough() {
 		lv += "; 3 producers x 2 messages each"
 	}
 	r.Completed(lv)
+	if r.Thorough() {
+		r.Completed("slow peer (the writer is held at every write while producers keep submitting): 1 producer x 40 and x 36 mixed messages with every single departure from that policy, x 70 with every pair of departures; 2 producers x 24 each with every single departure")
+	} else {
+		r.Completed("slow peer (the writer is held at every write while producers keep submitting): 1 producer x 40 and x 36 mixed messages with every single departure from that policy; 2 producers x 24 each, policy order only")
+	}
 	r.Completed("kind sweep: one producer submitting one message of every encodable kind and command/type variant (controller-originated through the constructors, switch-originated as the parser builds them), default schedule")
 	if r.Thorough() {
 		r.Completed("size sweep: one producer submitting echo, packet-out of EVERY total size 24..65535, echo (default schedule)")
